@@ -3,6 +3,7 @@ package main
 import (
 	"fmt"
 	"go/types"
+	"strings"
 
 	"golang.org/x/tools/go/ssa"
 )
@@ -208,4 +209,147 @@ func containsFn(l []*ssa.Function, f *ssa.Function) bool {
 // isStartOrStop: fn is the Start/Stop method of a plugin (initialisation, not event path).
 func (c *Ctx) isStartOrStop(fn *ssa.Function) bool {
 	return fn.Signature.Recv() != nil && (fn.Name() == "Start" || fn.Name() == "Stop")
+}
+
+// ruleBusyOnlyWhileJoining: an action that answers a time-out event by ending the process when its
+// "joining" flag is false (`if !p.isJoining { Panicf }`) relies on: the processor keeps it busy only
+// while that flag is true. The processor marks an action busy when Do returns ActionHold or
+// ActionCollapse, so every such return must be reached with the flag true: no way from a point that
+// cleared the flag (directly or inside a callee such as flush) to such a return without setting it
+// again, and a return reached without any write of the flag must be guarded by the flag.
+func ruleBusyOnlyWhileJoining(c *Ctx, r *Rule) {
+	ro := c.roles()
+	if ro.ActionPlugin == nil {
+		r.Unresolved("ActionPlugin")
+		return
+	}
+	busyVals := map[int64]string{}
+	for v, n := range c.actionResultConsts() {
+		if n == "ActionHold" || n == "ActionCollapse" {
+			busyVals[v] = n
+		}
+	}
+	if len(busyVals) != 2 {
+		r.Unresolved("pipeline.ActionHold / ActionCollapse")
+		return
+	}
+	for _, t := range c.Implementers(ro.ActionPlugin) {
+		do := c.MethodOf(t, "Do")
+		if do == nil || do.Blocks == nil {
+			continue
+		}
+		owner := namedOf(deref(do.Params[0].Type()))
+		if owner == nil {
+			continue
+		}
+		// the flag: a bool field of the receiver whose falsity guards a no-return call in Do
+		flag := ""
+		for _, b := range do.Blocks {
+			for _, in := range b.Instrs {
+				if !isNoReturn(in) {
+					continue
+				}
+				for _, l := range c.unitGuards(in) {
+					if o, f, _, ok := loadedField(l.v); ok && o == owner && !l.pol {
+						flag = f
+					}
+				}
+			}
+		}
+		if flag == "" {
+			continue
+		}
+		r.Inst(1)
+		name := c.fnName(do)
+		pkgPath := owner.Obj().Pkg().Path()
+		isFlagStore := func(in ssa.Instruction, want bool) bool {
+			st, ok := in.(*ssa.Store)
+			if !ok {
+				return false
+			}
+			o, f, _, ok := fieldOf(st.Addr)
+			if !ok || !isField(o, f, pkgPath, owner.Obj().Name(), flag) {
+				return false
+			}
+			k, isK := constBool(st.Val)
+			return isK && k == want
+		}
+		// callees (depth 2) that may clear the flag
+		var clears func(f *ssa.Function, d int) bool
+		seen := map[*ssa.Function]bool{}
+		clears = func(f *ssa.Function, d int) bool {
+			if f == nil || f.Blocks == nil || d > 2 || seen[f] || !c.inModule(f) {
+				return false
+			}
+			seen[f] = true
+			defer delete(seen, f)
+			for _, b := range f.Blocks {
+				for _, in := range b.Instrs {
+					if isFlagStore(in, false) {
+						return true
+					}
+					if ci, ok := in.(ssa.CallInstruction); ok && clears(calleeFunc(ci), d+1) {
+						return true
+					}
+				}
+			}
+			return false
+		}
+		isClear := func(in ssa.Instruction) bool {
+			if isFlagStore(in, false) {
+				return true
+			}
+			ci, ok := in.(ssa.CallInstruction)
+			return ok && clears(calleeFunc(ci), 1)
+		}
+		isSet := func(in ssa.Instruction) bool { return isFlagStore(in, true) }
+		n := 0
+		for _, b := range do.Blocks {
+			ret, ok := asReturn(b)
+			if !ok || len(ret.Results) != 1 {
+				continue
+			}
+			var kinds []string
+			for _, leaf := range phiLeaves(ret.Results[0]) {
+				if k, isK := constInt(leaf); isK && busyVals[k] != "" {
+					kinds = append(kinds, busyVals[k])
+				}
+			}
+			if len(kinds) == 0 {
+				continue
+			}
+			n++
+			isRet := func(in ssa.Instruction) bool { return in == ssa.Instruction(ret) }
+			// (1) after a clear, the flag is set again before this return
+			bad := false
+			var at ssa.Instruction
+			for _, bb := range do.Blocks {
+				for _, in := range bb.Instrs {
+					if !isClear(in) {
+						continue
+					}
+					if to, _ := c.pathExists(do, in, isRet, isSet); to {
+						bad, at = true, in
+					}
+				}
+			}
+			msg := "the action asks to stay busy (" + strings.Join(kinds, "/") + ") only with its " + flag + " flag true"
+			if bad {
+				msg += ": reachable after the flag was cleared at " + c.pos(at.Pos()) + " without setting it again — the processor then sends the time-out event to an action that is not joining, which ends the process"
+			}
+			r.Ob(!bad, fmt.Sprintf("%s|busy-return#%d|flag-not-cleared", name, n), ret.Pos(), msg)
+			// (2) reached without any write of the flag: guarded by the flag
+			untouched, _ := c.pathExists(do, nil, isRet, func(in ssa.Instruction) bool { return isSet(in) || isClear(in) })
+			if untouched {
+				g := false
+				for _, l := range c.unitGuards(ret) {
+					if o, f, _, ok := loadedField(l.v); ok && o == owner && f == flag && l.pol {
+						g = true
+					}
+				}
+				r.Ob(g, fmt.Sprintf("%s|busy-return#%d|guarded-by-flag", name, n), ret.Pos(), "a busy result reached without touching the "+flag+" flag is returned only when the flag is already true")
+			}
+		}
+		r.Ob(n >= 1, name+"|has-busy-returns", do.Pos(), "the action can hold or collapse")
+	}
 }
